@@ -171,6 +171,42 @@ fn main() {
             futures::executor::block_on(async { futures::pin_mut!(evs); while let Some(e) = evs.next().await { wr.handle_event(e, &c).await; } });
             println!("JUNIT: {}", String::from_utf8_lossy(&b2.0.borrow()));
         }
+        "e9" => {
+            let dir = std::env::temp_dir().join("exp_e9"); let _ = std::fs::create_dir_all(&dir);
+            let path = dir.join("a.feature");
+            std::fs::write(&path, "Feature: P\n  Background:\n    Given pass\n  @retry(1)\n  Scenario: hookfail\n    Given pass\n  Scenario: amb ]]> <b>\n    Given ambiguous ]]> & x\n  Scenario: same\n    Given nomatch\n  Rule: r\n    Background:\n      Given failfirst\n    @retry(2)\n    Scenario: same\n      Given pass\n").unwrap();
+            let f = gherkin::Feature::parse_path(&path, gherkin::GherkinEnv::default()).unwrap();
+            let which2 = std::env::args().nth(2).unwrap_or_default();
+            let mk = || runner::Basic::<W>::default().max_concurrent_scenarios(Some(1))
+                .given(Regex::new("^pass$").unwrap(), pass_step).given(Regex::new("^failfirst$").unwrap(), fail_first)
+                .given(Regex::new("^ambiguous").unwrap(), pass_step).given(Regex::new("x$").unwrap(), pass_step)
+                .before(|_, _, sc, _| { let n = sc.name.clone(); async move { if n == "hookfail" && ATTEMPT.load(Ordering::SeqCst) == 0 { ATTEMPT.store(100, Ordering::SeqCst); panic!("before boom") } }.boxed_local() })
+                .after(|_, _, sc, _, _| { let n = sc.name.clone(); async move { if n.starts_with("amb") { panic!("after ]]> boom") } }.boxed_local() });
+            #[derive(Clone, Default)] struct Buf(Rc<RefCell<Vec<u8>>>);
+            impl std::io::Write for Buf { fn write(&mut self, b: &[u8]) -> std::io::Result<usize> { self.0.borrow_mut().extend_from_slice(b); Ok(b.len()) } fn flush(&mut self) -> std::io::Result<()> { Ok(()) } }
+            let b = Buf::default();
+            let evs = mk().run(futures::stream::iter(vec![Ok(f)]), runner::basic::Cli::default());
+            match which2.as_str() {
+                "json" => { let mut wr = writer::Json::new::<W>(b.clone()); futures::executor::block_on(async { futures::pin_mut!(evs); while let Some(e) = evs.next().await { Writer::<W>::handle_event(&mut wr, e, &cli::Empty).await; } }); }
+                "junit" => { let mut wr = writer::JUnit::<W, _>::new(b.clone(), 0); let c = cucumber::writer::junit::Cli { verbose: None }; futures::executor::block_on(async { futures::pin_mut!(evs); while let Some(e) = evs.next().await { wr.handle_event(e, &c).await; } }); }
+                "libtest" => { let mut wr = writer::Libtest::<W, _>::new(b.clone()); let c = cucumber::writer::libtest::Cli { format: None, show_output: false, report_time: None, nightly: None }; futures::executor::block_on(async { futures::pin_mut!(evs); while let Some(e) = evs.next().await { wr.handle_event(e, &c).await; } }); }
+                _ => { let mut wr = writer::Basic::new::<W>(b.clone(), writer::Coloring::Never, 0).summarized(); let c = cucumber::writer::basic::Cli::default(); futures::executor::block_on(async { futures::pin_mut!(evs); while let Some(e) = evs.next().await { Writer::<W>::handle_event(&mut wr, e, &c).await; } }); }
+            }
+            println!("{}", String::from_utf8_lossy(&b.0.borrow()));
+        }
+        "e10" => {
+            static HOOK_CALLS: AtomicUsize = AtomicUsize::new(0);
+            std::panic::set_hook(Box::new(|_| { HOOK_CALLS.fetch_add(1, Ordering::SeqCst); }));
+            fn any_panic(_: &mut W, _: step::Context) -> LocalBoxFuture<'_, ()> { async { std::panic::panic_any(42u32) }.boxed_local() }
+            let f = feat("Feature: A\n  Scenario: s1\n    Given anyp\n  Scenario: s2\n    Given pass\n");
+            let r = runner::Basic::<W>::default().given(Regex::new("^pass$").unwrap(), pass_step).given(Regex::new("^anyp$").unwrap(), any_panic)
+                .after(|_, _, _, _, _| async { panic!("after {}", 1) }.boxed_local());
+            let evs = r.run(futures::stream::iter(vec![Ok(f)]), runner::basic::Cli::default());
+            futures::executor::block_on(evs.for_each(|e| { if let Ok(e) = e { if let event::Cucumber::Feature(_, event::Feature::Scenario(_, ev)) = &*e { if let event::Scenario::Step(_, event::Step::Failed(_, _, _, event::StepError::Panic(info))) = &ev.event { println!("payload u32 = {:?}", info.downcast_ref::<u32>()); } if let event::Scenario::Hook(_, event::Hook::Failed(_, info)) = &ev.event { println!("hook payload String = {:?}", info.downcast_ref::<String>()); } } } futures::future::ready(()) }));
+            println!("hook calls during run = {}", HOOK_CALLS.load(Ordering::SeqCst));
+            let _ = std::thread::spawn(|| { let _ = std::panic::catch_unwind(|| panic!("marker")); }).join();
+            println!("hook calls after marker = {}", HOOK_CALLS.load(Ordering::SeqCst));
+        }
         _ => {}
     }
     let _ = Arc::new(0);
